@@ -13,9 +13,17 @@ package c17
 //	exec    authz MsgExec{grantee, children}
 //	wasm    wasm MsgExecuteContract{sender, reflect contract, reflect_msg{children as stargate}}
 //	gov     gov MsgSubmitProposal{proposer, children}  (stored; executed only if the proposal passes)
+//	group   x/group MsgSubmitProposal{group policy, proposers = [proposer], children, exec = TRY | unspecified}
+//	carrier any OTHER routed message type that carries sdk.Msgs (found at run time in the linked app by
+//	        carriers.Probe), built by reflection: children packed into its Any fields, sender into its strings
+//
+// Which carrier types exist is read off the LINKED application (interface registry + msg service router), not
+// assumed: group nodes are generated on every tree (where x/group is not routed they must be rejected), carrier
+// nodes whenever the probe reports a routed carrier the driver has no constructor for.
 //
 // Actors: 0..3 user accounts (secp256k1), 10 the reflect contract (owner = user 0), 11 the gov
-// module account.  Observables per transaction: accepted?, and the commission (rate, max rate,
+// module account, 12 the policy account of a group (members: user 1 and the contract, one yes vote passes;
+// the group exists only where x/group is routed).  Observables per transaction: accepted?, and the commission (rate, max rate,
 // max change rate) of every actor that is a validator, plus the maximum commission rate over ALL
 // validators in staking state.
 
@@ -46,9 +54,11 @@ import (
 	genutiltypes "github.com/cosmos/cosmos-sdk/x/genutil/types"
 	govtypes "github.com/cosmos/cosmos-sdk/x/gov/types"
 	govv1 "github.com/cosmos/cosmos-sdk/x/gov/types/v1"
+	"github.com/cosmos/cosmos-sdk/x/group"
 	stakingtypes "github.com/cosmos/cosmos-sdk/x/staking/types"
 	"github.com/cosmos/gogoproto/proto"
 
+	"verifharness/c17/carriers"
 	"verifharness/c17/txutil"
 	. "verifharness/hx"
 
@@ -64,6 +74,7 @@ const (
 	nUsers     = 4
 	idContract = 10
 	idGov      = 11
+	idPolicy   = 12
 )
 
 type node struct {
@@ -75,7 +86,11 @@ type node struct {
 	From int     `json:"from,omitempty"` // grant: granter; send: sender
 	To   int     `json:"to,omitempty"`   // grant: grantee
 	T    string  `json:"t,omitempty"`    // grant: message type (create|edit|exec|wasm|send|grant|gov)
-	G    int     `json:"g,omitempty"`    // exec: grantee; wasm: sender; gov: proposer
+	G    int     `json:"g,omitempty"`    // exec: grantee; wasm: sender; gov: proposer; group: proposer; carrier: sender
+	Pol  int     `json:"pol,omitempty"`  // group: actor whose address is the group policy account
+	Try  bool    `json:"try,omitempty"`  // group: Exec = EXEC_TRY
+	U    int     `json:"u,omitempty"`    // carrier: number of the carrier type (index into the probe's list of unknown carriers)
+	URL  string  `json:"url,omitempty"`  // carrier: its type URL
 	C    []node  `json:"c,omitempty"`    // children
 }
 
@@ -122,6 +137,7 @@ type world struct {
 	users    []*secp256k1.PrivKey
 	contract sdk.AccAddress
 	gov      sdk.AccAddress
+	policy   sdk.AccAddress
 	sink     sdk.AccAddress
 	nPk      int
 	tag      uint64
@@ -140,12 +156,79 @@ func repoDir() string {
 
 var reflectCode []byte
 
+// ---------------------------------------------------------------- carriers of the linked application
+const (
+	urlExec        = "/cosmos.authz.v1beta1.MsgExec"
+	urlGovSubmit   = "/cosmos.gov.v1.MsgSubmitProposal"
+	urlGroupSubmit = "/cosmos.group.v1.MsgSubmitProposal"
+	urlEthTx       = "/eth.evm.v1.MsgEthereumTx"
+)
+
+var (
+	probed          bool
+	groupRouted     bool     // the msg service router executes group MsgSubmitProposal
+	unknownCarriers []string // routed carrier types the driver has no constructor for (wrapped by reflection)
+)
+
+func probeCarriers(a *app.NibiruApp) {
+	if probed {
+		return
+	}
+	probed = true
+	for _, i := range carriers.Probe(a.InterfaceRegistry(), a.MsgServiceRouter()) {
+		if !i.Routed || !i.Carries() {
+			continue
+		}
+		switch i.URL {
+		case urlExec, urlGovSubmit, urlEthTx:
+		case urlGroupSubmit:
+			groupRouted = true
+		default:
+			unknownCarriers = append(unknownCarriers, i.URL)
+		}
+	}
+	sort.Strings(unknownCarriers)
+}
+
+// setupGroup gives the case its group: members user 1 and the reflect contract (weight 1 each), threshold 1, no
+// minimum execution period; w.policy is the group policy account.  Where x/group is not routed no group can exist:
+// w.policy is then a plain funded address.
+func (w *world) setupGroup(t *testing.T) {
+	c := w.c
+	ctx := c.Ctx()
+	w.policy = sdk.AccAddress([]byte(fmt.Sprintf("c17-policy-%09d", w.tag)))
+	if groupRouted {
+		m := &group.MsgCreateGroupWithPolicy{Admin: w.addr(1).String(), Members: []group.MemberRequest{
+			{Address: w.addr(1).String(), Weight: "1"}, {Address: w.contract.String(), Weight: "1"}}}
+		if err := m.SetDecisionPolicy(group.NewThresholdDecisionPolicy("1", time.Hour, 0)); err != nil {
+			t.Fatal(err)
+		}
+		h := c.App.MsgServiceRouter().Handler(m)
+		if h == nil {
+			t.Fatal("x/group routed but MsgCreateGroupWithPolicy has no handler")
+		}
+		rsp, err := h(ctx, m)
+		if err != nil {
+			t.Fatal("create group: ", err)
+		}
+		var gr group.MsgCreateGroupWithPolicyResponse
+		if err := c.App.AppCodec().Unmarshal(rsp.Data, &gr); err != nil {
+			t.Fatal(err)
+		}
+		w.policy = sdk.MustAccAddressFromBech32(gr.GroupPolicyAddress)
+	}
+	if err := c.Fund(w.policy, Unibi(1e13)); err != nil {
+		t.Fatal(err)
+	}
+}
+
 // newWorld starts a fresh chain and stores the reflect contract code once; beginCase then gives every case
 // its own key accounts and its own contract instance (the wasm VM of a chain is never released, so chains are
 // shared by a batch of cases; nothing a case observes depends on the other cases of the batch).
 func newWorld(t *testing.T) *world {
 	w := &world{c: NewChain(nil)}
 	c := w.c
+	probeCarriers(c.App)
 	c.BeginBlock(5 * time.Second)
 	ctx := c.Ctx()
 	w.sink = sdk.AccAddress([]byte("c17-sink____________"))
@@ -185,6 +268,8 @@ func newGenesisWorld(t *testing.T, ci caseIn) (*world, genObs) {
 	w.gov = authtypes.NewModuleAddress(govtypes.ModuleName)
 	w.contract = sdk.AccAddress([]byte("c17-no-contract-yet_"))
 	napp := app.NewNibiruApp(log.NewNopLogger(), tmdb.NewMemDB(), nil, true, sims.EmptyAppOptions{})
+	probeCarriers(napp)
+	w.policy = sdk.AccAddress([]byte("c17-no-policy-yet___"))
 	cdc := napp.AppCodec()
 	txCfg := app.MakeEncodingConfig().TxConfig
 	gen := napp.DefaultGenesis()
@@ -267,6 +352,7 @@ func newGenesisWorld(t *testing.T, ci caseIn) (*world, genObs) {
 			t.Fatal(err)
 		}
 	}
+	w.setupGroup(t)
 	c.EndBlock()
 	return w, g
 }
@@ -305,6 +391,7 @@ func (w *world) beginCase(t *testing.T, minRate string) {
 	if err := c.Fund(w.contract, Unibi(1e13)); err != nil {
 		t.Fatal(err)
 	}
+	w.setupGroup(t)
 	c.EndBlock()
 }
 
@@ -316,6 +403,8 @@ func (w *world) addr(id int) sdk.AccAddress {
 		return w.contract
 	case id == idGov:
 		return w.gov
+	case id == idPolicy:
+		return w.policy
 	}
 	return sdk.AccAddress([]byte(fmt.Sprintf("c17-unknown-%08d", id)))
 }
@@ -338,6 +427,7 @@ var typeURL = map[string]string{
 	"send":   "/cosmos.bank.v1beta1.MsgSend",
 	"grant":  "/cosmos.authz.v1beta1.MsgGrant",
 	"gov":    "/cosmos.gov.v1.MsgSubmitProposal",
+	"group":  urlGroupSubmit,
 }
 
 func (w *world) build(n node) (sdk.Msg, error) {
@@ -394,6 +484,22 @@ func (w *world) build(n node) (sdk.Msg, error) {
 			return nil, err
 		}
 		return govv1.NewMsgSubmitProposal(ms, Unibi(10_000_000), w.addr(n.G).String(), "m", "t", "s")
+	case "group":
+		ms, err := w.buildAll(n.C)
+		if err != nil {
+			return nil, err
+		}
+		ex := group.Exec_EXEC_UNSPECIFIED
+		if n.Try {
+			ex = group.Exec_EXEC_TRY
+		}
+		return group.NewMsgSubmitProposal(w.addr(n.Pol).String(), []string{w.addr(n.G).String()}, ms, "", ex, "t", "s")
+	case "carrier":
+		ms, err := w.buildAll(n.C)
+		if err != nil {
+			return nil, err
+		}
+		return carriers.Wrap(w.c.App.InterfaceRegistry(), n.URL, w.addr(n.G), ms)
 	}
 	return nil, fmt.Errorf("unknown node kind %q", n.K)
 }
@@ -426,7 +532,7 @@ func (w *world) observe(r abci.ResponseDeliverTx, seqBefore uint64, signer int) 
 	for i := 0; i < nUsers; i++ {
 		ids = append(ids, i)
 	}
-	ids = append(ids, idContract, idGov)
+	ids = append(ids, idContract, idGov, idPolicy)
 	for _, id := range ids {
 		v, found := w.c.App.StakingKeeper.GetValidator(ctx, sdk.ValAddress(w.addr(id)))
 		if found {
@@ -541,13 +647,15 @@ func genCreate(r *Rng, op int) node {
 }
 
 func genActor(r *Rng) int {
-	switch r.Pick(12, 3, 1) {
+	switch r.Pick(12, 3, 1, 4) {
 	case 0:
 		return r.Intn(nUsers)
 	case 1:
 		return idContract
+	case 2:
+		return idGov
 	}
-	return idGov
+	return idPolicy
 }
 
 // genLeaf makes a staking leaf for operator op (a create when it is believed not to be a validator yet).
@@ -613,23 +721,39 @@ func genTree(r *Rng, signer int, isVal map[int]bool, depth int, needs *[]grantNe
 		op := signer
 		if r.Chance(1, 3) {
 			op = genActor(r)
+		} else if depth > 0 && r.Chance(1, 7) {
+			op = idPolicy // a validator operated by the group policy account: only a group proposal can sign for it
 		}
 		leaf = genStakingLeaf(r, op, isVal)
 	case 1:
 		leaf = node{K: "send", From: signer}
 	default:
-		leaf = node{K: "grant", From: signer, To: (signer + 1 + r.Intn(nUsers-1)) % nUsers, T: []string{"create", "edit", "exec", "wasm", "send"}[r.Intn(5)]}
+		leaf = node{K: "grant", From: signer, To: (signer + 1 + r.Intn(nUsers-1)) % nUsers, T: []string{"create", "edit", "exec", "wasm", "send", "group"}[r.Intn(6)]}
 	}
 	cur := leaf
 	for d := 0; d < depth; d++ {
 		inner := signerOf(cur)
 		var w node
-		kind := r.Pick(10, 4, 1)
+		kind := r.Pick(20, 8, 2, 1)
 		if inner == idContract && r.Chance(3, 4) {
 			kind = 1
 		}
+		if inner == idPolicy && r.Chance(6, 7) {
+			kind = 3
+		}
+		if len(unknownCarriers) > 0 && r.Chance(1, 4) {
+			kind = 4
+		}
 		sibs := withDecoys(r, cur, inner)
 		switch kind {
+		case 3:
+			// a group proposal: its messages must be signed by the policy account; the proposer should be a member
+			// (user 1 or the contract)
+			p := []int{1, 1, 1, 1, idContract, idContract, 2, signer}[r.Intn(8)]
+			w = node{K: "group", G: p, Pol: idPolicy, Try: !r.Chance(1, 7), C: sibs}
+		case 4:
+			u := r.Intn(len(unknownCarriers))
+			w = node{K: "carrier", U: u, URL: unknownCarriers[u], G: inner, C: sibs}
 		case 0:
 			g := inner
 			if inner >= nUsers || r.Chance(1, 3) {
@@ -638,7 +762,7 @@ func genTree(r *Rng, signer int, isVal map[int]bool, depth int, needs *[]grantNe
 					g = signer
 				}
 			}
-			if g != inner && !r.Chance(1, 7) {
+			if g != inner && !r.Chance(1, 7) && kindOf(cur) != "carrier" {
 				*needs = append(*needs, grantNeed{inner, g, kindOf(cur)})
 			}
 			w = node{K: "exec", G: g, C: sibs}
@@ -648,8 +772,10 @@ func genTree(r *Rng, signer int, isVal map[int]bool, depth int, needs *[]grantNe
 				s = r.Intn(nUsers)
 			}
 			w = node{K: "wasm", G: s, C: sibs}
-		default:
+		case 2:
 			w = node{K: "gov", G: signer, C: sibs}
+		default:
+			w = node{K: "exec", G: inner, C: sibs}
 		}
 		cur = w
 	}
@@ -726,7 +852,7 @@ func genCase(r *Rng) caseIn {
 			t := genTree(r, signer, isVal, depth, &needs)
 			if signerOf(t) != signer && depth > 0 && !r.Chance(1, 8) {
 				// top-level wrapper must be signed by the tx signer: re-wrap in an exec of the signer
-				if !r.Chance(1, 7) {
+				if !r.Chance(1, 7) && kindOf(t) != "carrier" {
 					needs = append(needs, grantNeed{signerOf(t), signer, kindOf(t)})
 				}
 				t = node{K: "exec", G: signer, C: []node{t}}
@@ -770,6 +896,7 @@ func openers() []caseIn {
 	}
 	ex := func(g int, c ...node) node { return node{K: "exec", G: g, C: c} }
 	wa := func(c ...node) node { return node{K: "wasm", G: 0, C: c} }
+	gp := func(p int, try bool, c ...node) node { return node{K: "group", G: p, Pol: idPolicy, Try: try, C: c} }
 	chain := func(n, g int, inner node) node {
 		for i := 0; i < n; i++ {
 			inner = ex(g, inner)
@@ -816,6 +943,21 @@ func openers() []caseIn {
 		{GenTxs: []txIn{{Signer: 1, Msgs: []node{cv(1, r25)}}, {Signer: 2, Msgs: []node{ex(2, cv(2, r25p))}}}, Txs: []txIn{}},
 		{GenTxs: []txIn{{Signer: 3, Msgs: []node{node{K: "send", From: 3}, ex(3, node{K: "send", From: 3}), cv(3, r90)}}}, Txs: []txIn{}},
 		{GenTxs: []txIn{{Signer: 1, Msgs: []node{cv(1, "50000000000000000")}}, {Signer: 1, Msgs: []node{node{K: "edit", Op: 1, Rate: sp("60000000000000000")}}}}, Txs: []txIn{}},
+		// x/group proposals (where the module is not routed every one of these transactions must be rejected): a member
+		// submits with Exec = TRY a create-validator for the policy account above the cap / at the cap; stored only
+		// (no TRY); a non-member; a message not signed by the policy account; harmless messages in front
+		{Txs: []txIn{{Dt: 5, Signer: 1, Msgs: []node{gp(1, true, cv(idPolicy, r90))}}, {Dt: 5, Signer: 1, Msgs: []node{gp(1, false, cv(idPolicy, r90))}},
+			{Dt: 5, Signer: 2, Msgs: []node{gp(2, true, cv(idPolicy, r25p))}}, {Dt: 5, Signer: 1, Msgs: []node{gp(1, true, cv(1, r25p))}},
+			{Dt: 5, Signer: 1, Msgs: []node{gp(1, true, node{K: "send", From: idPolicy}, ex(idPolicy, node{K: "send", From: idPolicy}), cv(idPolicy, r25))}}}},
+		// the same carried by authz exec (twice), dispatched by the contract (a member), and proposed for exec by grant
+		{Txs: []txIn{{Dt: 5, Signer: 1, Msgs: []node{ex(1, ex(1, gp(1, true, cv(idPolicy, r25p))))}},
+			{Dt: 5, Signer: 0, Msgs: []node{wa(gp(idContract, true, cv(idPolicy, r90)))}},
+			{Dt: 5, Signer: 1, Msgs: []node{{K: "grant", From: 1, To: 2, T: "group"}}},
+			{Dt: 5, Signer: 2, Msgs: []node{ex(2, gp(1, true, cv(idPolicy, "500000000000000000")))}}}},
+		// an edit through a group proposal, 24 h after a create within the cap; exec inside the proposal
+		{Txs: []txIn{{Dt: 5, Signer: 1, Msgs: []node{gp(1, true, cv(idPolicy, "100000000000000000"))}},
+			{Dt: 86400, Signer: 1, Msgs: []node{gp(1, true, ex(idPolicy, node{K: "edit", Op: idPolicy, Rate: sp(r90)}))}},
+			{Dt: 86400, Signer: 1, Msgs: []node{gp(1, true, node{K: "edit", Op: idPolicy, Rate: sp(r25)})}}}},
 		// extension options: the EVM chain admits MsgEthereumTx only, unknown options are rejected
 		{Txs: []txIn{{Dt: 5, Ext: "evm", Signer: 1, Msgs: []node{cv(1, r90)}}, {Dt: 5, Ext: "evm", Signer: 1, Msgs: []node{ex(1, cv(1, r25))}},
 			{Dt: 5, Ext: "other", Signer: 1, Msgs: []node{cv(1, r25)}}, {Dt: 5, Signer: 1, Msgs: []node{cv(1, r25)}}}},
@@ -831,7 +973,7 @@ func TestC17(t *testing.T) {
 	defer em.Close()
 	run := func(ci caseIn) {
 		obs, g := runCase(t, ci, cfg.Replay != "")
-		extra := map[string]interface{}{"cap": rawOf(ante.MAX_COMMISSION())}
+		extra := map[string]interface{}{"cap": rawOf(ante.MAX_COMMISSION()), "group_routed": groupRouted, "unknown_carriers": unknownCarriers}
 		if g != nil {
 			extra["genesis"] = g
 		}
